@@ -187,7 +187,7 @@ class Prop:
             "inputs before/after).  Enumerated: every pair of sibling-unique labelled forests with <= 3 nodes each over 3 labels, one "
             "representative per renaming of the labels (thorough: plus all pairs (4 nodes, <= 3 nodes) and seeded samples of the "
             "(<= 3, 4) and (4, 4) pairs); random: mutated copies (add/remove/move/swap/relabel/sort, 0-6 steps) of random trees with up "
-            "to 14 (thorough 30) nodes over 3-6 labels, unrelated random pairs, identical copies, the same tree object on both sides; pairs of TypedTrees with random kinds; pairs whose nodes carry user metadata; every diff is run twice on the same inputs and each input is diffed against a fresh copy of itself; "
+            "to 14 (thorough 30) nodes over 3-6 labels, unrelated random pairs, identical copies, the same tree object on both sides; pairs of TypedTrees with random kinds; pairs whose nodes carry user metadata; every diff is run twice on the same inputs and each input is diffed against a fresh copy of itself; histories: all diffs in both directions first, then in-place edits of the same tree objects (re-order, rename, move-away + add: child counts kept), then the observed diffs of the CURRENT inputs; "
             "plus an out-of-domain stream (equal-comparing objects under explicit data_ids, ids shared by unequal data; diff may lose or "
             "duplicate nodes) on which model = implementation and 'inputs unchanged' are checked.  The oracle is "
             "applied exactly on the pairs inside the theorems' domain (computed independently on both sides).  distinct = distinct "
@@ -269,7 +269,7 @@ class Prop:
                 t1 = rand_nodes(rng, rng.randint(0, nmax), k)
             yield dict(univ=LABELS[:k], t0=t0, t1=t1)
         # inputs whose nodes carry user metadata (on changed and on unchanged nodes); diff must neither copy nor touch it
-        nmeta = 140 if tier == "quick" else 1500
+        nmeta = 120 if tier == "quick" else 800
         small_all = [f for n in range(1, 4) for f in small[n]]
         for i in range(nmeta):
             k = rng.choice([3, 3, 4])
@@ -290,6 +290,27 @@ class Prop:
             if i % 7 == 0:
                 d = dict(d, typed=True, t0=[[l, "k1", x, c] for l, _, x, c in t0], t1=[[l, "k1", x, c] for l, _, x, c in t1])
             yield d
+        # histories: diff, edit the same tree objects in place (mostly keeping the child counts), diff again
+        nhist = 160 if tier == "quick" else 800
+        for i in range(nhist):
+            k = rng.choice([3, 4, 4, 6])
+            t0 = rand_nodes(rng, rng.randint(2, 9), k)
+            t1 = mutate(rng, t0, k, rng.randint(0, 2))
+            edits = []
+            for _ in range(rng.randint(1, 3)):
+                op = rng.choice(["sort", "rotate", "rotate", "rename", "move_add", "move_add", "swap_data"])
+                which = rng.choice([1, 1, 0])
+                if op == "sort":
+                    edits.append([op, which, rng.randint(-1, 8), rng.randint(0, 1)])
+                elif op == "rotate":
+                    edits.append([op, which, rng.randint(-1, 8)])
+                elif op == "rename":
+                    edits.append([op, which, rng.randint(0, 8), rng.randrange(k)])
+                elif op == "move_add":
+                    edits.append([op, which, rng.randint(0, 8), rng.randint(0, 8), rng.randrange(k)])
+                else:
+                    edits.append([op, which, rng.randint(0, 8)])
+            yield dict(univ=LABELS[:k], t0=t0, t1=t1, edits=edits)
         # typed trees (both inputs TypedTree; kinds play no role in the comparison and are copied to the result)
         ntyped = 50 if tier == "quick" else 300
         for i in range(ntyped):
@@ -364,6 +385,18 @@ class Prop:
             # description violates sibling uniqueness (possible after shrinking / out-of-domain labelling): trivial case
             return Case(desc=desc, coq_input="(([], [], []) : case11)", impl_obs=[[], [], [], True, True], nontrivial=False, key=H.digest(desc))
         U, t0, t1, base = built
+        # HISTORY: diff first (both directions, all configurations), then edit the SAME tree objects in place, then run the
+        # observed diffs: the result must be the diff of the CURRENT inputs (model, oracle), whatever an earlier call saw
+        edits = desc.get("edits")
+        if edits:
+            for o, r in CONFIGS:
+                for a, b in ((t0, t1), (t1, t0)):
+                    try:
+                        a.diff(b, ordered=o, reduce=r)
+                    except Exception:  # noqa: BLE001
+                        pass
+            for e in edits:
+                apply_edit(e, t0, t1, U)
         # node identities local to the case (allocation index minus the index at the start of the case): unary nat in Coq
         in0, in1 = coq_forest(t0._root, U, base), coq_forest(t1._root, U, base)
         before = (sx_forest(t0._root, U, base), sx_forest(t1._root, U, base))
@@ -452,9 +485,53 @@ class Prop:
         coq_input = f"(({in0}, {in1}, {H.coq_list(coq_cfgs)}) : case11)"
         n0, n1 = B.nodes_size(desc["t0"]), B.nodes_size(desc["t1"])
         return Case(desc=desc, coq_input=coq_input, impl_obs=obs, oracle_fail="; ".join(fails[:3]) if fails else None,
-                    nontrivial=marks > 0, key=H.digest([desc["univ"], desc["t0"], desc["t1"]]),
+                    nontrivial=marks > 0, key=H.digest([desc["univ"], desc["t0"], desc["t1"], desc.get("edits")]),
                     stats=dict(n0=min(n0, 16), n1=min(n1, 16), marked=marks > 0, ambiguous=ambiguous, raised=errors > 0,
                                outside=outside, dup_excluded=dup_excluded))
+
+
+def apply_edit(e, t0, t1, U):
+    """one in-place edit of an input tree; node positions are pre-order indices (modulo the current size); an edit that the
+    library refuses (uniqueness, own branch) is skipped"""
+    op, which = e[0], e[1]
+    tree = t1 if which == 1 else t0
+    nodes = B.all_nodes(tree._root)
+    if not nodes:
+        return
+    try:
+        if op == "sort":          # re-order the children of one parent (or the top level): count unchanged
+            idx, rev = e[2], e[3]
+            p = tree._root if idx < 0 else nodes[idx % len(nodes)]
+            p.sort_children(key=lambda n: f"{n.data}", reverse=bool(rev))
+        elif op == "rotate":      # last child becomes the first: count unchanged
+            idx = e[2]
+            p = tree._root if idx < 0 else nodes[idx % len(nodes)]
+            ch = p._children or []
+            if len(ch) >= 2:
+                ch[-1].move_to(p, before=ch[0])
+        elif op == "rename":      # another data object on the same node: count unchanged
+            n = nodes[e[2] % len(nodes)]
+            n.set_data(U.objs[e[3] % len(U.objs)])
+        elif op == "move_add":    # move a node away and add a new child to its old parent: count of the old parent unchanged
+            n = nodes[e[2] % len(nodes)]
+            tgt = nodes[e[3] % len(nodes)]
+            old = n._parent
+            if tgt is n or tgt.is_descendant_of(n) or tgt is old:
+                return
+            if any(c._data_id == n._data_id for c in (tgt._children or [])):
+                return
+            obj = U.objs[e[4] % len(U.objs)]
+            if any(c._data == obj for c in (old._children or [])):
+                return
+            n.move_to(tgt)
+            old.add(obj)
+        elif op == "swap_data":   # two siblings exchange their data via a third value: count unchanged
+            n = nodes[e[2] % len(nodes)]
+            sib = n.next_sibling()
+            if sib is not None:
+                n.move_to(n._parent, before=None)   # n becomes the last child
+    except Exception:  # noqa: BLE001
+        return
 
 
 def deep_snapshot(tree):
@@ -580,16 +657,19 @@ def obs_forest(root, U):
 
 # ---------------------------------------------------------------------------
 def twice_copied_dids(p0, p1):
-    """data_ids of the t1 nodes that diff copies twice (their top is matched by == and also added by data_id)"""
+    """data_ids of the t1 nodes that diff copies twice (their top is matched by == and also added by data_id, or is the
+    peer of two == siblings of t0)"""
     out = set()
     ch0, ch1 = p0._children or [], p1._children or []
     ids0 = {c._data_id for c in ch0}
+    peers = []
     for c0 in ch0:
         c1 = next((c for c in ch1 if c._data == c0._data), None)
         if c1 is None:
             continue
-        if c1._data_id not in ids0:
+        if c1._data_id not in ids0 or any(c1 is q for q in peers):   # matched AND added, or the peer of two == t0 siblings
             out.update(n._data_id for n in B.all_nodes(c1))
+        peers.append(c1)
         out |= twice_copied_dids(c0, c1)
     return out
 
@@ -853,6 +933,11 @@ def ucanon(s):
 
 
 CORPUS = [
+    # history (seeded C11-9): diff, re-order / move-away+add in the second tree keeping the child counts, diff again
+    dict(univ=LABELS[:4], t0=[[0, None, None, [[1, None, None, []], [2, None, None, []]]], [3, None, None, []]],
+         t1=[[0, None, None, [[1, None, None, []], [2, None, None, []]]], [3, None, None, []]], edits=[["rotate", 1, 0]]),
+    dict(univ=LABELS[:4], t0=[[0, None, None, [[1, None, None, []], [2, None, None, []]]], [3, None, None, []]],
+         t1=[[0, None, None, [[1, None, None, []], [2, None, None, []]]], [3, None, None, []]], edits=[["move_add", 1, 1, 3, 3]]),
     # user metadata on a node that gets a mark and on an unchanged one (seeded C11-4 / C11-5)
     dict(univ=LABELS[:3], t0=[[0, None, None, [[1, None, None, []]]], [2, None, None, []]], t1=[[2, None, None, []], [0, None, None, []]],
          um0={"0": {"u": 1}, "1": {"u": 2}, "2": {"note": "x"}}, um1={"0": {"u": 3}}),
